@@ -6,9 +6,11 @@ PROP = {
     "streams": [{"name": "robust"}],
     "rule": "robust: (1) exhaustive boundary matrix: every filter registered in filters/*.go (read from the source at run "
             "time) x receiver in U x argument tuples in U^arity plus one over-arity call, every comparison/boolean "
-            "operator x U x U, 31 access/loop/tag forms x U (x U), 12 cases on a cyclic include layout (a file that includes itself, a 2-cycle behind a condition), U = 22 (quick) / 57 (thorough) boundary values (typed zeros "
+            "operator x U x U, 31 access/loop/tag forms x U (x U), 12 cases on a cyclic include layout (a file that includes itself, a 2-cycle behind a condition), U = 23 (quick) / 58 (thorough) boundary values (the size is recorded on every run in the evidence note robust:universe) (typed zeros "
             "int64(0), uint(0) and an array holding a nil and a non-nil pointer included); a "
-            "family of pure templates over ranges with extreme endpoints and lengths around the array-conversion bound; 299 whole templates "
+            "family of pure templates over ranges with extreme endpoints and lengths around the array-conversion bound; fixed families on "
+            "`forloop` bindings of every shape under cycle/tablerow (reserved names), every exported method name of time.Time and values.Range used as "
+            "a property, maps with NaN keys, typed nil pointers as elements, and Go values the codec cannot spell (implementation only); 299 whole templates "
             "about times ({{ t }}, t | date with and without a format, date on date strings of every modelled layout and on strings no layout "
             "accepts, times inside arrays, maps and behind pointers, date results fed to other filters) on 12 instants from the year -32873 to 36812; "
             "(2) every sequence of <= 3 items of a fixed 24-item alphabet of expression tokens (not every token the lexer knows) "
@@ -34,15 +36,17 @@ TEXT = {
               'include fuel, the model of ParseTemplateLocation+Render under the standard filters, operators and printing never '
               'ends in `panic`; run_result (the case split on the result type that follows): it ends in output, a value of the '
               'located-error type (that its line and path are meaningful is not part of the statement), or an explicit '
-              '`unmodelled` marker. Every file layout is covered, cyclic ones included, with no acyclicity hypothesis '
+              '`unmodelled` marker (run_result is stated for every value layer that satisfies PrimsNoPanic, the hypothesis of run_noPanic; '
+              'std_noPanic discharges it for the standard layer, and the first clause of run_terminates_all_layouts is that instance). Every file layout is covered, cyclic ones included, with no acyclicity hypothesis '
               '(run_terminates_all_layouts, Proofs.C01Depth): the only unbounded recursion of the renderer, through {% include %}, is a structural '
               'recursion on the fuel, the fuel is the number of include levels RenderFile still grants (maxIncludeDepth - depth, 100 for the '
               'template itself: runStd), with none left the handler IS the error of the repaired code (include nesting too deep), not a gap of '
               'the model, and an `unmodelled` answer of the handler never stands for depth: it is the `unmodelled` of compiling or rendering a '
-              'file that was found (third clause of the theorem). The input of the repaired defect in closed form: {% include "a" %} with '
-              'a = T{% include "a" %} on the standard engine is the located depth error raised by the 100th nested copy of the file '
-              '(self_include_fails_at_100; for every fuel n: self_include_depth_error, and every self-including file: include_cycle_fails, '
-              'Proofs.C14Depth). Proved layer by layer: the scanner is a total function (Lean\'s termination check; scan_total '
+              'file that was found (third clause of the theorem). The input of the repaired defect (ab284eb) in closed form: {% include "a" %} (either quote, a name without that quote) with '
+              'a = T{% include "a" %}, T literal text, under delimiters satisfying GoodDelims and with both sources free of further delimiter text (Clean), on the standard engine is the located depth error raised by the 100th nested copy of the file '
+              '(self_include_fails_at_100, Proofs.C01Depth, line = start line + 100 x the newlines of T). The same for every fuel n (self_include_depth_error) and, for a file that compiles to literal text followed by an '
+              'include tag of its own name as a literal (whatever follows the tag), an error at every fuel (include_cycle_fails) are theorems of '
+              'Proofs.C14Depth, audited under C14, not under this property. Proved layer by layer: the scanner is a total function (Lean\'s termination check; scan_total '
               'adds nothing to it), block parser (parseStep_noPanic/parseTokens_noPanic: the block-stack pop is guarded), expression '
               'parser, compile, render tree (renderRoot_noPanic, include recursion bounded by fuel), and the value layer the '
               'renderer calls (PrimsNoPanic stdPrims stdOut: ==, <, contains, values.Equal, writeObject, and ApplyFilter + '
@@ -52,9 +56,10 @@ TEXT = {
               'dateImpls_noPanic, date_noPanic, time_values_noPanic; all 48 registered filters have a modelled body: '
               'every_registered_filter_modelled; a body has to be panic-free only on '
               'arguments typed as its registered signature says, which is what values.Call hands it). The Res.panic sites of the '
-              'model, all of them shown unreachable: the reflect accessors on a value of the wrong kind (Bool, Int, Uint, Len, map '
+              'model of parsing and rendering (what `run` reaches; the separate heap model Liquid/Heap.lean of C03/C15 has its own), all of them shown unreachable: the reflect accessors on a value of the wrong kind (Bool, Int, Uint, Len, map '
               'Key, Convert to float64), Go == on uncomparable types, the string assertion of stringValue.Contains (Compare.lean), '
               'the pop of an empty block stack (Parse.lean), and a filter body applied to arguments of the wrong Go type (badArgs). '
+              "(Since 0fd7bf4 the code asks reflect's Comparable() before == (safeEqual); the model's goEq keeps the panic site behind the same guard.) "
               'Index and slice bounds, a write to a nil map, integer division by zero and nil-pointer dereference are NOT panic '
               'sites of the model: lookup, conversion, the string filter bodies and the tags are written there as total functions '
               '(division by zero is the returned error), so the theorem says nothing about them; that the code has no such panic '
@@ -64,13 +69,15 @@ TEXT = {
               'within the time budget.'),
     "design_ref": 'DESIGN.md 6 C01',
     "note": NOTE + ('Parts of the code answered `unmodelled` (counted in evidence) are covered by the oracle on the real code only: '
-              'date on a string receiver that is not one of the five all-digit layouts (nor rejected by every layout at its first field), '
+              'date on a string receiver that is not one of the five all-digit layouts (nor rejected by every layout at its first field) or that is `now` (the clock), '
               'strftime widths above 1024, instants beyond +-2^62 s, fmt of a time below an unexported struct field; in the model binary (not in the model\'s semantics) a loop over a range of more than 100000 '
-              'items and the array conversion of a range of more than 10^6 items: the two numbers are the defaults of the budget parameters of the executable model (Cfg.budget, `convert`), which have no counterpart in the code, and every theorem holds for every value of them - a render that gives an answer under some budgets gives the same answer under all larger ones (budget_monotone, budget_monotone_std in Proofs.C11, proved through every node and included file in Proofs.Budget), so no_panic and the other theorems about `run` are not limited by them; only the driver, which runs with the defaults, answers `unmodelled` there; sort of more than 12 elements when the order '
+              'items and the array conversion of a range of more than 10^6 items: the two numbers are the defaults of the budget parameters of the executable model (Cfg.budget, `convert`), which have no counterpart in the code; run_std_noPanic and the other theorems about `run` are stated for every value of the loop budget (it is a field of cfg), and run_noPanic / run_result for every value layer that satisfies PrimsNoPanic, while stdPrims (run_std_noPanic) fixes the conversion budget at its default 10^6 (stdPrims = stdPrimsB 1000000) - a render that gives an answer under some budgets gives the same answer under all larger ones (budget_monotone, budget_monotone_std, theorems of Proofs.C11 resting on Proofs.Budget, through every node and included file; both modules are audited under C11, not under this property), so an answer of the model is never an artefact of the budgets; only inputs beyond them are answered `unmodelled`, by the driver, which runs with the defaults; sort of more than 12 elements when the order '
               'is not a strict weak order or when tied elements are distinguishable (unstable sort); a custom block; pointer '
               'identity (== of two non-nil pointers, uniq over pointers); == on struct and array values; conversion of an index '
               'to a map\'s key type outside the modelled cases; fmt of a pointer (an address), of a pointer to a pointer and of '
-              'a map with keys of mixed dynamic type; a negative-zero literal; '
+              'a map with keys of mixed dynamic type; a loop over (or array conversion of) a map with several keys that are neither booleans, numbers nor strings (they are ordered by how they print: Liquid/MapOrder.lean); '
+              'a method of time.Time / values.Range invoked as a property; `contains` with a string needle on a struct value (method and field lookup); in json / inspect / type: an empty []any (nil and empty are not told apart), a map key that is neither a string nor an integer, '
+              '%T of a nil pointer, inspect of a value json.Marshal rejects; a negative-zero literal; '
               'some float edge cases (negative zero, overflow to Inf, float to int out '
               'of range, math.Pow10). Time/space is measured on the implementation, not proved (the model has no cost semantics).'),
     "technique": ('Lean 4 proof (no-panic invariant by structural induction over the render tree and the value layer, about the '
